@@ -6,6 +6,7 @@ use byteorder::{BigEndian, WriteBytesExt};
 use errors::Amf0SerializationError;
 use markers;
 use std::collections::HashMap;
+use std::io;
 use Amf0Value;
 
 /// Serializes values into an amf0 encoded vector of bytes
@@ -67,7 +68,19 @@ fn serialize_object(
     bytes.push(markers::OBJECT_MARKER);
 
     for (name, value) in properties {
-        // TODO: Add check that property name isn't greater than a u16
+        if name.len() > (u16::max_value() as usize) {
+            return Err(Amf0SerializationError::NormalStringTooLong);
+        }
+
+        if name.len() == 0 {
+            // A zero length name is how the end of an object is encoded, so it can't name a property
+            let error = io::Error::new(
+                io::ErrorKind::InvalidInput,
+                "Object property names cannot be empty",
+            );
+            return Err(Amf0SerializationError::BufferWriteError(error));
+        }
+
         bytes.write_u16::<BigEndian>(name.len() as u16)?;
         bytes.extend(name.as_bytes());
         serialize_value(&value, bytes)?;
